@@ -65,4 +65,35 @@ structure Simplified (D : LV) : Prop where
   irredundant : ∀ l ∈ D.latent, ∀ r ∈ D.latent,
     (∀ c ∈ D.children l, c ∈ D.children r) → l ≤ r ∧ ∀ c ∈ D.children r, c ∈ D.children l
 
+/-! ### d-connection inside the LV-DAG (walk / "Bayes-ball" formulation)
+
+`Z` is the conditioning set.  A d-connecting walk from `a` may traverse an edge in either direction;
+at an inner node `x` of the walk
+  * if both walk edges point into `x` (a collider) then `x` must be in `Z` or have a descendant in `Z`,
+  * otherwise (chain or fork) `x` must not be in `Z`.
+`Reach D Z a x down` says: some such walk from `a` has arrived at `x`, along an edge pointing into `x`
+(`down = true`) or out of `x` (`down = false`).  This is the standard walk formulation of d-connection;
+it agrees with the path formulation (a d-connecting walk can be shortened to a d-connecting path),
+a classical fact that is not mechanised here. -/
+
+/-- `x ∈ Z` or `x` has a directed path into `Z` -/
+def AnZ (D : LV) (Z : Nat → Prop) (x : Nat) : Prop := ∃ z, Z z ∧ Relation.ReflTransGen D.Edge x z
+
+inductive Reach (D : LV) (Z : Nat → Prop) (a : Nat) : Nat → Bool → Prop
+  | startDown {c : Nat} : D.Edge a c → Reach D Z a c true
+  | startUp {p : Nat} : D.Edge p a → Reach D Z a p false
+  | chainDown {x c : Nat} : Reach D Z a x true → ¬ Z x → D.Edge x c → Reach D Z a c true
+  | collider {x p : Nat} : Reach D Z a x true → D.AnZ Z x → D.Edge p x → Reach D Z a p false
+  | chainUp {x p : Nat} : Reach D Z a x false → ¬ Z x → D.Edge p x → Reach D Z a p false
+  | fork {x c : Nat} : Reach D Z a x false → ¬ Z x → D.Edge x c → Reach D Z a c true
+
+/-- `a` and `b` are d-connected given `Z` -/
+def DConn (D : LV) (Z : Nat → Prop) (a b : Nat) : Prop := ∃ s, Reach D Z a b s
+
+/-- the same d-connection statements hold among the observed nodes of `D` in `D` and in `D'`,
+for every observed conditioning set -/
+def SameSep (D D' : LV) : Prop :=
+  ∀ (Z : Nat → Prop) (a b : Nat), (∀ z, Z z → D.Observed z) → D.Observed a → D.Observed b → a ≠ b →
+    (D'.DConn Z a b ↔ D.DConn Z a b)
+
 end Y0.LV
